@@ -6,7 +6,7 @@
    these decisions at these points is the correspondence's job. *)
 From Coq Require Import ZArith List Bool.
 Import ListNotations.
-Require Import SV.Life.Model SV.Life.Policy SV.Life.Shutdown.
+Require Import SV.Life.Model SV.Life.Policy SV.Life.Shutdown SV.Life.InvProofs SV.Life.PolicyRun SV.Life.StopRun SV.Life.RpcRun.
 Open Scope Z_scope.
 
 Theorem c03_exit_too_quick_iff :
@@ -79,3 +79,76 @@ Theorem c03_no_start_during_shutdown :
     nfork (out (fold_left (Model.step U pconfs gconfs) ops w)) = nfork (out w).
 Proof. intros U pconfs gconfs ops w H. exact (proj2 (no_fork_run U pconfs gconfs ops w H)). Qed.
 Print Assumptions c03_no_start_during_shutdown.
+
+(* every fork in every run is the second half of a STARTING transition out of STOPPED, EXITED, FATAL or BACKOFF *)
+Theorem c03_fork_only_from_pidless_states :
+  forall (U : Z) (pconfs : list pconf) (gconfs : list gconf) (ops : list passop) 
+           (l : list effect) (i : nat) (p : Z) (r : list effect),
+         out (run U pconfs gconfs ops) = l ++ EFork i p :: r ->
+         exists (s : pstate) (x : Z) (e : bool) (r' : list effect),
+           r = EState i s STARTING x e :: r' /\ (s = STOPPED \/ s = EXITED \/ s = FATAL \/ s = BACKOFF).
+Proof. exact fork_preceded_by_starting. Qed.
+Print Assumptions c03_fork_only_from_pidless_states.
+
+(* a FATAL process, or a STOPPED one that has been started before, is not forked and does not change during a pass that carries no start request for it *)
+Theorem c03_no_spontaneous_start :
+  forall (U : Z) (pconfs : list pconf) (gconfs : list gconf) (ops : list passop) (o : passop) (i : nat),
+         let w := run U pconfs gconfs ops in
+         let w' := step U pconfs gconfs w o in
+         sts w i = FATAL \/ sts w i = STOPPED /\ laststart (procs w i) <> 0 ->
+         no_start_for pconfs gconfs i o ->
+         sts w' i = sts w i /\ procs w' i = procs w i /\ nforki i (out w') = nforki i (out w).
+Proof. exact no_spontaneous_start_run. Qed.
+Print Assumptions c03_no_spontaneous_start.
+
+(* in every run, a retry from BACKOFF is due only when strictly more than `backoff` seconds have passed since a genuine clock reading, and only while retries are left *)
+Theorem c03_retry_not_before_k_seconds :
+  forall (U : Z) (pconfs : list pconf) (gconfs : list gconf) (ops : list passop) (i : nat) (t_now : Z),
+         let w := run U pconfs gconfs ops in
+         sts w i = BACKOFF ->
+         retry_due (cf pconfs i) (procs w i) t_now = true ->
+         backoff (procs w i) <= c_startretries (cf pconfs i) /\
+         (exists t : Z, readings ops t /\ t_now - t > backoff (procs w i) * U /\ 1 <= backoff (procs w i)).
+Proof. exact retry_not_before_backoff_seconds. Qed.
+Print Assumptions c03_retry_not_before_k_seconds.
+
+(* a BACKOFF->FATAL notification by transition means the failure count exceeded startretries (possibly through the attempt that just failed) *)
+Theorem c03_fatal_only_when_retries_exhausted :
+  forall (U : Z) (pconfs : list pconf) (w : world) (i : nat),
+         sts w i = BACKOFF ->
+         pid (procs w i) = 0 ->
+         mood w >= 1 ->
+         exists w' : world,
+           transition U pconfs i w = (Some tt, w') /\
+           fr i w w' /\
+           (forall (l : list effect) (x : Z) (e : bool),
+            out w' = l ++ out w ->
+            In (EState i BACKOFF FATAL x e) l ->
+            sts w' i = FATAL /\
+            (backoff (procs w i) > c_startretries (cf pconfs i) /\ l = EState i BACKOFF FATAL 0 true :: nil \/
+             backoff (procs w i) + 1 > c_startretries (cf pconfs i) /\
+             backoff (procs w i) <= c_startretries (cf pconfs i) /\
+             (exists k : Z,
+                l =
+                EState i BACKOFF FATAL 0 true
+                :: EState i STARTING BACKOFF (backoff (procs w i) + 1) true
+                   :: ESpawnFail i k :: EState i BACKOFF STARTING (backoff (procs w i)) true :: nil))).
+Proof. exact fatal_only_when_retries_exhausted. Qed.
+Print Assumptions c03_fatal_only_when_retries_exhausted.
+
+(* in EXITED (daemon RUNNING) a restart happens iff should_restart; otherwise nothing changes *)
+Theorem c03_autorestart_decision :
+  forall (U : Z) (pconfs : list pconf) (w : world) (i : nat),
+         sts w i = EXITED ->
+         pid (procs w i) = 0 ->
+         mood w >= 1 ->
+         exists w' : world,
+           transition U pconfs i w = (Some tt, w') /\
+           fr i w w' /\
+           (should_restart (cf pconfs i) (exitstatus (procs w i)) = true ->
+            spawn_post U pconfs i EXITED (procs w i) (out w) (now w) tt (sts w' i) (procs w' i) (out w')) /\
+           (should_restart (cf pconfs i) (exitstatus (procs w i)) = false -> unchanged i w w') /\
+           ((exists (l : list effect) (x : Z) (e : bool), out w' = l ++ EState i EXITED STARTING x e :: out w) <->
+            should_restart (cf pconfs i) (exitstatus (procs w i)) = true).
+Proof. exact autorestart_decision. Qed.
+Print Assumptions c03_autorestart_decision.
